@@ -253,6 +253,7 @@ var comPool = []string{"CHF", "USD", "EUR", "AAPL", "BTC", "GOLD", "VT", "JPY", 
 var descWords = []string{
 	"Migros", "rent", "salary", "coffee", "SBB", "insurance", "Zürich", "transfer", "fees", "dividend",
 	"buy", "sell", "ATM", "refund", "tax", "日本", "été", "#hash", "a;b", "x,y", "it's", "100%",
+	"%s", "%d%%", "%[1]v", "back\\slash", "{{.}}", "$(x)", "<b>&amp;", "`tick`", "'single'",
 }
 
 func pick[T any](r *rand.Rand, xs []T) T { return xs[r.Intn(len(xs))] }
